@@ -186,6 +186,22 @@ func vIsHop(name string) bool {
 
 func VerifC02Proxy() {
 	p := vSeedProxy
+	if rt.Param("history", 1) == 1 && rt.Bool("earlierRequestNamesHeadersInConnection") {
+		// an earlier request (of any client) listed field names in its Connection header;
+		// that must not influence how later requests are forwarded
+		h0 := http.Header{"Connection": []string{"keep-alive, X-Custom, Accept, Cookie"}, "X-Custom": []string{"old"}}
+		w0 := rt.NewRecorder()
+		done0 := make(chan int, 1)
+		go func() {
+			p.ServeHTTP(w0, vClientRequest("GET", "/earlier", "", "", h0))
+			done0 <- 1
+		}()
+		for _, id := range vList(p) {
+			vPost(p, id, &http.Response{StatusCode: 204, Proto: "HTTP/1.1", ProtoMajor: 1, ProtoMinor: 1, Header: http.Header{}, Body: vBody{strings.NewReader("")}})
+		}
+		<-done0
+		rt.Cover("C02.after-earlier-request")
+	}
 	hdr := http.Header{}
 	n := rt.Int("nheaders", 0, rt.Param("headers", 2))
 	for i := 0; i < n; i++ {
@@ -325,4 +341,92 @@ func VerifC03Proxy() {
 	}
 	rt.Cover("C03.client-response-checked")
 	_ = context.Background
+}
+
+// ---------------------------------------------------------------------------
+// HS-1c (C01): a client disconnects while the agent's upload of its response is
+// already open; a later client must still receive its own response only.
+
+type vGatedBody struct {
+	data    *strings.Reader
+	release chan struct{}
+	opened  bool
+}
+
+func (b *vGatedBody) Read(p []byte) (int, error) {
+	if !b.opened {
+		<-b.release // the response head only arrives later
+		b.opened = true
+	}
+	return b.data.Read(p)
+}
+func (b *vGatedBody) Close() error { return nil }
+
+func VerifC01Disconnect() {
+	p := vSeedProxy
+	// client A, with a cancellable context
+	ctxA, cancelA := context.WithCancel(context.Background())
+	recA := rt.NewRecorder()
+	doneA := make(chan int, 1)
+	go func() {
+		h := http.Header{}
+		h.Set("X-Client", "A")
+		r := vClientRequest("GET", "/one", "", "", h)
+		p.ServeHTTP(recA, r.WithContext(ctxA))
+		doneA <- 1
+	}()
+	idsA := vList(p)
+	rt.Assert(len(idsA) == 1, "C01.first-request-listed")
+	if len(idsA) != 1 {
+		return
+	}
+	reqA, _ := vFetch(p, idsA[0])
+	rt.Assert(reqA != nil && reqA.Header.Get("X-Client") == "A", "C01.first-request-fetched")
+	// the agent opens the upload for A before the backend has answered
+	var wire bytes.Buffer
+	(&http.Response{StatusCode: 200, Proto: "HTTP/1.1", ProtoMajor: 1, ProtoMinor: 1, Header: http.Header{"X-Answer-For": []string{"A"}},
+		Body: vBody{strings.NewReader("body-for-A")}, ContentLength: -1}).Write(&wire)
+	gate := &vGatedBody{data: strings.NewReader(wire.String()), release: make(chan struct{})}
+	uploadDone := make(chan int, 1)
+	go func() {
+		rt.Daemon()
+		req := vAgentRequest("POST", idsA[0], "")
+		req.Body = gate
+		p.ServeHTTP(rt.NewRecorder(), req)
+		uploadDone <- 1
+	}()
+	rt.Quiesce()
+	// A gives up
+	if rt.Bool("clientADisconnects") {
+		cancelA()
+		rt.Quiesce()
+		rt.Cover("C01.client-disconnected")
+	}
+	// client B arrives
+	recB := rt.NewRecorder()
+	doneB := make(chan int, 1)
+	go func() {
+		h := http.Header{}
+		h.Set("X-Client", "B")
+		p.ServeHTTP(recB, vClientRequest("GET", "/two", "", "", h))
+		doneB <- 1
+	}()
+	idsB := vList(p)
+	rt.Assert(len(idsB) == 1 && idsB[0] != idsA[0], "C01.second-request-listed-under-its-own-id")
+	// the backend finally answers A: the upload proceeds
+	close(gate.release)
+	rt.Quiesce()
+	if len(doneB) == 1 {
+		rt.Assert(recB.H.Get("X-Answer-For") != "A" && string(recB.Body) != "body-for-A", "C01.late-response-is-never-delivered-to-another-client")
+	}
+	// B's own response
+	if len(idsB) == 1 && len(doneB) == 0 {
+		vPost(p, idsB[0], &http.Response{StatusCode: 200, Proto: "HTTP/1.1", ProtoMajor: 1, ProtoMinor: 1, Header: http.Header{"X-Answer-For": []string{"B"}},
+			Body: vBody{strings.NewReader("body-for-B")}, ContentLength: -1})
+		rt.Quiesce()
+	}
+	rt.Assert(len(doneB) == 1 && recB.H.Get("X-Answer-For") == "B" && string(recB.Body) == "body-for-B", "C01.later-client-gets-exactly-its-own-response")
+	rt.Cover("C01.disconnect-scenario-checked")
+	_ = doneA
+	_ = uploadDone
 }
